@@ -773,6 +773,14 @@ fn c06_release(po: &HubObs, a: &Action, qo: &HubObs, released_now: &[u64], dirty
     if arrived != total {
         cx.count("c06_release_group_with_loss_or_surplus");
     }
+    // a loss is spread completely: after the release the group is not valued above the coins that arrived
+    if arrived < total {
+        let after: u128 = nominal.iter().filter_map(|n| qo.hist(n.0)).map(|h| mul_dec(h.bsei_amount.u128(), h.bsei_withdraw_rate) + mul_dec(h.stsei_amount.u128(), h.stsei_withdraw_rate)).sum();
+        cx.count("c06_release_group_loss_fully_spread_checked");
+        if after > arrived {
+            cx.viol("C06.release_pro_rata", "the loss of a release group was not spread completely: its batches are valued above the coins that arrived", format!("{}: batches {:?} nominal {} arrived {} valued {} after the release", a.label, released_now, total, arrived, after));
+        }
+    }
     for (b, nb, ns) in nominal {
         let h = qo.hist(b).unwrap();
         let got_b = mul_dec(h.bsei_amount.u128(), h.bsei_withdraw_rate);
@@ -848,6 +856,12 @@ fn c07_state(c: &Chain, o: &HubObs, g: &G, cx: &mut Cx) {
             cx.viol("C07.batch_total", "history batch total differs from recorded claims plus paid claims", format!("batch {} history {}/{} ledger {:?} paid {:?}", h.batch_id, h.bsei_amount, h.stsei_amount, s, p));
         }
         cx.trigger("c07_history_batches_checked");
+    }
+    // every closed batch (ids 1..current) has its total stored in the history: no gaps, nothing beyond the open batch
+    let ids: Vec<u64> = o.history.iter().map(|h| h.batch_id).collect();
+    let exp_ids: Vec<u64> = (1..cur).collect();
+    if ids != exp_ids {
+        cx.viol("C07.history_gap", "the history does not hold exactly one entry per closed batch", format!("current batch {}: history ids {:?}", cur, ids));
     }
     // AllHistory paging is faithful
     let n = o.history.len() as u64;
